@@ -172,6 +172,9 @@ def signature(r):
         # whose description the RTSP player(s) hold at the rejected step
         return "%s:ret=%s:desc=%s%s" % (ev.get("ev"), obs.get("ret"), "+".join(sorted(set(v for v in ev["desc"].values() if v))),
                                         ":hook=%d" % len(obs.get("hook", [])) if obs.get("hook") else "")
+    if "media" in ev and len(set(ev["media"].values())) > 1:
+        # the outputs of the publication that ended do not hold the same number of frames
+        return "%s:ret=%s:media=%s" % (ev.get("ev"), obs.get("ret"), "+".join(k for k in sorted(ev["media"]) if ev["media"][k] < max(ev["media"].values())) + "-short")
     tr = r["trace"][:r["line"]]
     kinds = "+".join(sorted(set(e["ev"] for e in tr if e["ev"] in ("StartPs", "AddCust", "PullOk", "PullFail", "StartPull", "Kick"))))
     return "%s:ret=%s:notif=%d:hook=%d%s" % (ev.get("ev"), obs.get("ret"), len(obs.get("notif", [])), len(obs.get("hook", [])),
